@@ -17,9 +17,9 @@ MUTANTS = [
     {"name": "revert-b9950c3-xor-threads-value", "revert": "b9950c3", "props": ["C09"]},
     {"name": "revert-b467353-enum-unhashable", "props": ["C12"], "edits": [{"file": T, "old": "            except TypeError:\n                # unhashable data (list / set / bytearray) is not a member name\n                pass", "new": "            except ZeroDivisionError:\n                pass"}]},
     {"name": "revert-981e4a4-depth-falsy-route", "revert": "981e4a4", "props": ["C18"]},
-    {"name": "revert-4a77e64-fieldfirst-case-variants", "props": ["C06"], "edits": [{"file": "utype/parser/base.py", "old": "                        if not context.options.ignore_alias_conflicts:\n                            # two case variants of one name with different values: a conflict,", "new": "                        if False:\n                            # two case variants of one name with different values: a conflict,"}]},
+    {"name": "revert-4a77e64-fieldfirst-case-variants", "props": ["C06"], "edits": [{"file": "utype/parser/base.py", "old": "                        if _differ(_data[lk], v) and not context.options.ignore_alias_conflicts:", "new": "                        if False and _differ(_data[lk], v) and not context.options.ignore_alias_conflicts:"}]},
     {"name": "revert-f57c67c-ignore_required-defaults", "revert": "f57c67c", "props": ["C06"]},
-    {"name": "c06-datafirst-compares-parsed-with-raw", "props": ["C06"], "edits": [{"file": "utype/parser/base.py", "old": "                    if _differ(provided[name], value):", "new": "                    if _differ(result.get(name, value), value):"}]},
+    # (c06-datafirst-compares-parsed-with-raw was removed: the comparison it changed no longer exists after 09759d5)
     {"name": "revert-3f17af4-datafirst-spurious-absence", "props": ["C10"], "edits": [{"file": "utype/parser/base.py", "old": "            if name in result or name in attempted:", "new": "            if name in result:"}]},
     {"name": "c10-handle_error-drops-absence-when-collecting", "props": ["C10"], "edits": [{"file": "utype/parser/options.py", "old": "        self.errors.append(e)\n        if force_raise or self.force_error or not self.options.collect_errors:", "new": "        if not (self.options.collect_errors and type(e).__name__ == 'AbsenceError' and self.errors):\n            self.errors.append(e)\n        if force_raise or self.force_error or not self.options.collect_errors:"}]},
     {"name": "c11-seq-preserve-appends-converted-prefix-only", "props": ["C11"], "edits": [{"file": "utype/parser/rule.py", "old": """                    if options.invalid_items == options.PRESERVE:
@@ -55,7 +55,7 @@ MUTANTS = [
     {"name": "revert-a3b6a28-const-enum-typeless", "revert": "a3b6a28", "props": ["C15"]},
     {"name": "c15-maximum-mapped-to-lt", "props": ["C15"], "edits": [{"file": "utype/specs/json_schema/constant.py", "old": "    'maximum': 'le',", "new": "    'maximum': 'ge',"}]},
     {"name": "c15-uniqueItems-dropped", "props": ["C15"], "edits": [{"file": "utype/specs/json_schema/constant.py", "old": "    'uniqueItems': 'unique_items',\n", "new": ""}]},
-    {"name": "revert-4907b11-async-generator-asend", "revert": "4907b11", "props": ["C08"]},
+    {"name": "revert-4907b11-async-generator-asend", "props": ["C08"], "edits": [{"file": "utype/parser/func.py", "old": "                elif sent is not None:\n                    item = await generator.asend(sent)\n                else:\n                    item = await generator.__anext__()", "new": "                elif sent is not None:\n                    await generator.asend(sent)   # (the item yielded in response is dropped)\n                    item = await generator.__anext__()\n                else:\n                    item = await generator.__anext__()"}]},
     {"name": "revert-b8c7212-private-positional-default", "revert": "b8c7212", "props": ["C08"]},
     {"name": "revert-7930fa6-forward-ref-key-collision", "revert": "7930fa6", "props": ["C17"]},
     {"name": "revert-35946e1-forward-ref-lock", "props": ["C20"], "edits": [{"file": "utype/parser/base.py", "old": "        with self._forward_lock:\n            if not self.forward_refs:\n                return False\n            self._forward_resolving = True", "new": "        if True:\n            if not self.forward_refs:\n                return False\n            self._forward_resolving = False"}]},
@@ -69,7 +69,7 @@ MUTANTS = [
     {"name": "revert-6a12ebb-lax-max_digits-carry", "revert": "6a12ebb", "props": ["C03"]},
     {"name": "revert-2b13b3c-lax-multiple_of-float-drift", "props": ["C03"], "edits": [{"file": R, "old": "            if isinstance(value, float):\n                # binary floats drift", "new": "            if False:\n                # binary floats drift"}]},
     {"name": "revert-2c2374b-safe-repr-of-items", "revert": "2c2374b", "props": ["C04"]},
-    {"name": "revert-41cd943-unhashable-discriminator", "revert": "41cd943", "props": ["C04"]},
+    {"name": "revert-41cd943-unhashable-discriminator", "props": ["C04"], "edits": [{"file": "utype/parser/field.py", "old": "            try:\n                matched = discriminator in self.discriminator_map\n            except Exception:   # noqa\n                # an unhashable discriminator value (a list / dict) matches nothing\n                matched = False", "new": "            matched = discriminator in self.discriminator_map"}]},
     {"name": "revert-271e688-recheck-after-decimal_places", "props": ["C01"], "edits": [{"file": R, "old": "                if result is not value:\n                    # the constraint transformed the value", "new": "                if result is not value and getattr(validator, '__name__', key) != key:\n                    # the constraint transformed the value"}]},
     {"name": "revert-35e1088-int-lax-fractional-step", "props": ["C01"], "edits": [{"file": R, "old": "            if isinstance(value, int) and not isinstance(of, int):\n                # a fractional step on an int rule: the result has to stay an integer", "new": "            if False:\n                # a fractional step on an int rule: the result has to stay an integer"}]},
     {"name": "revert-b64ef33-local-class-optional-late-name", "revert": "b64ef33", "props": ["C17"]},
@@ -77,7 +77,7 @@ MUTANTS = [
     {"name": "revert-3172241-generator-whole-string-annotation", "props": ["C17"], "edits": [{"file": "utype/parser/func.py", "old": "            if late and r:", "new": "            if False:"}]},
     {"name": "revert-47d4c1c-exact-int-modulo", "props": ["C01"], "edits": [{"file": R, "old": "        if isinstance(value, (int, Decimal)) and not isinstance(value, bool):\n            # exact arithmetic for exact values", "new": "        if isinstance(value, Decimal):\n            # exact arithmetic for exact values"}]},
     {"name": "revert-44ce292-hunt", "revert": "44ce292", "props": ["C02"]},
-    {"name": "revert-155275b-hunt", "revert": "155275b", "props": ["C17", "C10"]},
+    {"name": "revert-155275b-hunt", "props": ["C17", "C10"], "edits": [{"file": "utype/schema.py", "old": "        # an assignment may be the first use of the class (custom __init__, no_parse)\n        self.__parser__.resolve_forward_refs()\n", "new": ""}, {"file": "utype/parser/base.py", "old": "            dependant.update(attempted.difference(excluded_fields))\n            if excluded_keys:\n                dependant.update(excluded_keys)\n\n            diff = dependencies.difference(dependant)\n            lack = dependencies.intersection(unprovided_fields)\n            lack.update(diff)\n            if lack:\n                # some dependencies not provided\n                context.handle_error(\n                    exc.DependenciesAbsenceError(absence_dependencies=lack)\n                )\n\n        # check dependencies before addition\n\n        if len(result) > 1:", "new": "            if excluded_keys:\n                dependant.update(excluded_keys)\n\n            diff = dependencies.difference(dependant)\n            lack = dependencies.intersection(unprovided_fields)\n            lack.update(diff)\n            if lack:\n                # some dependencies not provided\n                context.handle_error(\n                    exc.DependenciesAbsenceError(absence_dependencies=lack)\n                )\n\n        # check dependencies before addition\n\n        if len(result) > 1:"}]},
     {"name": "revert-54fefb3-hunt", "revert": "54fefb3", "props": ["C06", "C05"]},
     {"name": "revert-c298dac-hunt", "revert": "c298dac", "props": ["C13"]},
     {"name": "revert-a07ad16-hunt", "revert": "a07ad16", "props": ["C13"]},
@@ -87,7 +87,7 @@ MUTANTS = [
     {"name": "revert-204d9f9-hunt", "revert": "204d9f9", "props": ["C05"]},
     {"name": "revert-a3b8dc8-hunt", "revert": "a3b8dc8", "props": ["C09"]},
     {"name": "revert-00bfdc4-hunt", "revert": "00bfdc4", "props": ["C12", "C10"]},
-    {"name": "revert-1eae23d-hunt", "revert": "1eae23d", "props": ["C08", "C10"]},
+    {"name": "revert-1eae23d-hunt", "props": ["C08"], "edits": [{"file": "utype/parser/func.py", "old": "                    # the position is filled whatever happens to the value: the name must not be filled again by keyword\n                    parsed_keys.append(field.attname)\n", "new": ""}, {"file": "utype/parser/func.py", "old": "                        given_keys.add(field.attname)\n", "new": "                        given_keys.add(field.attname)\n                        parsed_keys.append(field.attname)\n"}]},
     {"name": "revert-2ee22c5-hunt", "revert": "2ee22c5", "props": ["C19", "C05", "C08"]},
     {"name": "revert-6b9de14-hunt", "revert": "6b9de14", "props": ["C05", "C14", "C07", "C11"]},
     {"name": "revert-ea9da58-hunt", "props": ["C02", "C03"], "edits": [{"file": R, "old": "        if isinstance(value, (int, Decimal)) and not isinstance(value, bool):\n            # exact arithmetic for exact values", "new": "        if False:\n            # exact arithmetic for exact values"}]},
@@ -102,7 +102,7 @@ MUTANTS = [
     {"name": "revert-61b6748-parse-cache-options", "revert": "61b6748", "props": ["C08"]},
     {"name": "revert-d6b131f-generator-throw", "revert": "d6b131f", "props": ["C08"]},
     {"name": "revert-93d3601-pre-validate-escape", "revert": "93d3601", "props": ["C04"]},
-    {"name": "revert-d0198aa-excluded-dependencies", "revert": "d0198aa", "props": ["C11"]},
+    {"name": "revert-d0198aa-excluded-dependencies", "props": ["C11"], "edits": [{"file": "utype/parser/base.py", "old": "            dependant.update(attempted.difference(excluded_fields))\n            if excluded_keys:\n                dependant.update(excluded_keys)\n\n            diff = dependencies.difference(dependant)\n            lack = dependencies.intersection(unprovided_fields)\n            lack.update(diff)\n            if lack:\n                # some dependencies not provided\n                context.handle_error(\n                    exc.DependenciesAbsenceError(absence_dependencies=lack)\n                )\n\n        # check dependencies before addition\n\n        if options.addition is not None:", "new": "            dependant.update(attempted)\n            if excluded_keys:\n                dependant.update(excluded_keys)\n\n            diff = dependencies.difference(dependant)\n            lack = dependencies.intersection(unprovided_fields)\n            lack.update(diff)\n            if lack:\n                # some dependencies not provided\n                context.handle_error(\n                    exc.DependenciesAbsenceError(absence_dependencies=lack)\n                )\n\n        # check dependencies before addition\n\n        if options.addition is not None:"}, {"file": "utype/parser/base.py", "old": "                excluded_fields.add(name)\n                unprovided_fields.add(name)\n            if unprovided(parsed):\n                continue\n\n            result[name] = parsed\n            if field.dependencies and not dropped:", "new": "                pass\n            if unprovided(parsed):\n                continue\n\n            result[name] = parsed\n            if field.dependencies:"}]},
     {"name": "revert-27a9820-discriminator-policy", "revert": "27a9820", "props": ["C11"]},
     {"name": "revert-4f4d486-discriminator-spelling", "revert": "4f4d486", "props": ["C05", "C11"]},
     {"name": "revert-6e97455-enum-equal-value", "revert": "6e97455", "props": ["C12"]},
